@@ -54,6 +54,19 @@ FlowsB == {[pat |-> p, m |-> m, h |-> h, q |-> q, s |-> s, typ |-> t] :
 \* one constraint kind at a time (keeps the product small, every kind meets every kind of the other flow)
 FlowsB1 == {f \in FlowsB : Cardinality({k \in {"m", "h", "q", "s"} : ~OwnEmpty(k, f)}) <= 1}
 
+FlowsB1U == {f \in FlowsB1 : f.typ = "user"}
+
+\* C  patterns and constraints together: overlapping patterns (literal / parameter / wildcard / bare "*") with one
+\*    method or status constraint, so that shadowing meets flows that do not qualify
+PatternsC == {Mk(HostH, <<"a">>), Mk(HostH, <<"a", WildSeg>>), Mk(HostH, <<ParamSeg("p")>>), Mk(HostH, <<WildSeg>>),
+              Mk(HostH, <<ParamSeg("p"), "b">>)}
+FlowsC == {[pat |-> p, m |-> c[1], h |-> {}, q |-> {}, s |-> c[2], typ |-> "user"] :
+              p \in PatternsC, c \in {<<{}, {}>>, <<{"GET"}, {}>>, <<{}, {500}>>}}
+UrlsC == {Mk(HostH, <<>>), Mk(HostH, <<"a">>), Mk(HostH, <<"a", "b">>), Mk(HostH, <<"c">>), Mk(HostH, <<"c", "b">>),
+          Mk(HostH, <<"a", "b", "c">>)}
+TxnsC == {Req(u, meth, {}, {}) : u \in UrlsC, meth \in {"GET", "POST"}}
+    \cup {Resp(u, "GET", st) : u \in UrlsC, st \in {200, 500}}
+
 UrlsB == {Mk(HostH, <<"a">>), Mk(HostH, <<"a", "b">>), Mk(HostH, <<"c">>)}
 \* one dimension at a time: header variants with an empty query, query variants with no header
 HdrQryB == {<<hdr, {}>> : hdr \in {{}, {<<"x-key", "v1">>}, {<<"x-key", "V2">>}, {<<"x-key", "zz">>}}}
@@ -110,5 +123,5 @@ FastAgrees(Ps, Us) ==
         /\ mi.loose = Matches(p, u) /\ mi.strict = MatchesStrict(p, u)
         /\ \A i \in 1..NParts(p) : IsParamF(Parts(p)[i].v) = IsParam(Parts(p)[i].v)
                                    /\ IsLitF(Parts(p)[i].v) = IsLit(Parts(p)[i].v)
-ASSUME FastAgrees(PatternsA \cup PatternsB, UrlsA \cup UrlsB)
+ASSUME FastAgrees(PatternsA \cup PatternsB \cup PatternsC, UrlsA \cup UrlsB \cup UrlsC)
 =============================================================================
